@@ -17,7 +17,6 @@ theorem lookup_map {α β γ} [BEq α] (l : List (α × β)) (g : β → γ) (k 
     cases h : x.1 == k <;> simp [h] at ih ⊢
     exact ih
 
-theorem occ_ge : ∀ x : Fin 16, (x.val ||| 0b1111 != 0b1111) = false := by decide
 
 theorem occ_iff (x : Nat) (hx : x < 1024) : (x ||| 0b1111 != 0b1111) = false ↔ x < 16 :=
   ⟨occ_lt ⟨x, hx⟩, fun h => occ_ge ⟨x, h⟩⟩
